@@ -1570,7 +1570,8 @@ func (m *batchLocateRangesMerger) appendRegion(uncachedRegion *Region) {
 		return
 	}
 	for ; m.cachedIdx < len(m.cachedRegions); m.cachedIdx++ {
-		if m.lastEndKey != nil && bytes.Compare(*m.lastEndKey, m.cachedRegions[m.cachedIdx].EndKey()) >= 0 {
+		// an empty end key means +inf: such a region is never covered by a region with a bounded end.
+		if end := m.cachedRegions[m.cachedIdx].EndKey(); m.lastEndKey != nil && len(end) > 0 && bytes.Compare(*m.lastEndKey, end) >= 0 {
 			// skip the cached region that is covered by the uncached region.
 			continue
 		}
@@ -1586,7 +1587,8 @@ func (m *batchLocateRangesMerger) appendRegion(uncachedRegion *Region) {
 func (m *batchLocateRangesMerger) build() []*KeyLocation {
 	// append the rest cache hit regions
 	for ; m.cachedIdx < len(m.cachedRegions); m.cachedIdx++ {
-		if m.lastEndKey != nil && bytes.Compare(*m.lastEndKey, m.cachedRegions[m.cachedIdx].EndKey()) >= 0 {
+		// an empty end key means +inf: such a region is never covered by a region with a bounded end.
+		if end := m.cachedRegions[m.cachedIdx].EndKey(); m.lastEndKey != nil && len(end) > 0 && bytes.Compare(*m.lastEndKey, end) >= 0 {
 			// skip the cached region that is covered by the uncached region.
 			continue
 		}
